@@ -206,6 +206,32 @@ def batch_rows(rnd, spec, n):
     return rows
 
 
+def mix_families(rnd, spec):
+    """an output variable whose terms are of two families (a constant next to shape terms) under an Automatic weighted
+    defuzzifier, concluded by rules that fire on different parts of an input's range: whether the mixture is refused must
+    not depend on how the rows are grouped"""
+    out = rnd.choice(spec["outputs"])
+    iv = spec["inputs"][0]
+    lo, hi = iv["minimum"], iv["maximum"]
+    mid = 0.5 * (lo + hi)
+    iv["terms"] = [dict(cls="Rectangle", name="lower", params=[lo, mid], height=1.0), dict(cls="Rectangle", name="upper", params=[mid + 0.25 * (hi - mid), hi], height=1.0)] + iv["terms"]
+    out["kind"], out["aggregation"] = "mixed", None
+    out["defuzzifier"] = dict(cls=rnd.choice(["WeightedAverage", "WeightedSum"]), type="Automatic")
+    out["terms"] = [dict(cls="Constant", name="k", params=[out["minimum"]], height=1.0), dict(cls="Triangle", name="tri", params=[out["minimum"], 0.5 * (out["minimum"] + out["maximum"]), out["maximum"]], height=1.0)]
+    spec.pop("shared_defuzzifier", None)
+    spec["route"] = "constructors"
+    rules = []
+    for a, c in (("lower", "k"), ("upper", "tri")):
+        tree = ("prop", dict(var=iv["name"], hedges=[], term=a))
+        concl = [dict(var=out["name"], hedges=[], term=c)]
+        rules.append(dict(text=f"if {iv['name']} is {a} then {out['name']} is {c}", tree=tree, concl=concl, weight=1.0, enabled=True))
+    # the other rules must not conclude on (or read) the rebuilt variable
+    for rb in spec["blocks"]:
+        rb["rules"] = [r for r in rb["rules"] if all(c["var"] != out["name"] for c in r["concl"]) and out["name"] not in r["text"].split()]
+    spec["blocks"][0]["rules"] += rules
+    spec["blocks"][0]["activation"] = dict(cls="General", args=[])
+
+
 def run(ctx):
     fl = import_library()
     nengines = ctx.scale(350, 15000)
@@ -224,6 +250,9 @@ def run(ctx):
         mon.install(probe)
         for i, rnd in ctx.cases("engines", nengines):
             spec = E.gen_engine(rnd, activations=("General",), d=rnd.choice([1, 3, 3]), resolutions=[1, 2, 5, 10, 37, 100, 1000], free_weights=True, share_defuzzifier=True, routes=True)
+            if rnd.random() < 0.12:
+                mix_families(rnd, spec)
+                ctx.hit("workload:output variable mixing term families under an Automatic weighted defuzzifier")
             try:
                 engine = E.build(fl, spec)
             except Exception as ex:
@@ -262,6 +291,7 @@ def run(ctx):
         c01.examples(ctx, fl)
         probe.report(ctx)
         reach.report(ctx)
+    ctx.require("workload:output variable mixing term families under an Automatic weighted defuzzifier")
     ctx.require("hook:Engine.process", "compare:batch vs float", "hook:Engine.input_values.setter", "input_values:2d", "input_values:1d", "input_values:0d", "compare:output_values readable", "batch_size:2-8")
     for d in E.INTEGRAL + ["WeightedAverage", "WeightedSum"]:
         ctx.require(f"defuzzifier:{d}")
